@@ -18,16 +18,25 @@ ELEMS = [1, 2, 3]  # 3 fails
 STORES = ["memory", "fs+cache:1", "fs"]
 
 
+MARK = ". Original stack trace"
+
+
+def _exc_key(e):
+    """class, original message, and whether this is the exception object the body raised or one replayed from the store
+    (a replayed one carries the original stack trace in its message) - the volatile trace text itself is not compared"""
+    return (type(e).__name__, str(e).split(MARK)[0], "replayed-from-store" if MARK in str(e) else "raised-by-body")
+
+
 def _outcome(thunk):
     try:
         return ("value", thunk())
     except Exception as e:  # noqa
-        return ("raise", type(e).__name__, str(e).split(". Original stack trace")[0])
+        return ("raise",) + _exc_key(e)
 
 
 def _norm(r):
     if isinstance(r, Exception):
-        return ("exc", type(r).__name__, str(r).split(". Original stack trace")[0])
+        return ("exc",) + _exc_key(r)
     return ("val", r)
 
 
@@ -70,6 +79,8 @@ def _run(n, e0, e1, e2, e3, pre, raise_first, prefix, api, store, ELEMS=ELEMS, S
             cover("failing-element")
         if len({(type(x), x) for x in xs}) > len(set(xs)):
             cover("python-equal-but-distinct-elements")
+        if SRC is SRC_REC and any(xs[i] == 2 and 1 in xs[i + 1:] for i in range(len(xs))):
+            cover("an-element-memoized-by-an-earlier-element's-body")
         if n == 0:
             cover("empty-batch")
         results = []
@@ -101,16 +112,16 @@ def _run(n, e0, e1, e2, e3, pre, raise_first, prefix, api, store, ELEMS=ELEMS, S
                     singles = []
                     for x in xs:
                         o = _outcome(lambda: f.partial(5)(x) if px else f(5, x))
-                        singles.append(("val", o[1]) if o[0] == "value" else ("exc", o[1], o[2]))
+                        singles.append(("val", o[1]) if o[0] == "value" else ("exc",) + tuple(o[1:]))
                     first_exc = next((s for s in singles if s[0] == "exc"), None)
                     if api == "call_batch":
                         if rf and first_exc:
-                            out = ("raise", first_exc[1], first_exc[2])
+                            out = ("raise",) + tuple(first_exc[1:])
                         else:
                             out = ("value", singles)
                     else:
                         if first_exc:
-                            out = ("raise", first_exc[1], first_exc[2])
+                            out = ("raise",) + tuple(first_exc[1:])
                         else:
                             out = ("value", {x: s for x, s in zip(xs, singles)})
                 ran = list(prog.trace)[n0:]
@@ -172,3 +183,31 @@ def batch_n4(e0: int, e1: int, e2: int, e3: int, pre: int, raise_first: bool, pr
 )
 def batch_equal_values(e0: int, e1: int, e2: int, e3: int, pre: int, raise_first: bool, prefix: bool, store: str, n: int):
     _run(n, e0, e1, e2, e3, pre, raise_first, prefix, "call_batch", store, ELEMS=ELEMS_TYPED, SRC=SRC_TYPED, failing=False)
+
+
+SRC_REC = (
+    "@m.memento_function(version='1')\n"
+    "def f(p, x):\n"
+    "    _trace.append((p, x))\n"
+    "    if x == 3:\n"
+    "        raise ValueError('bad %r' % (x,))\n"
+    "    return (f(p, x - 1) if x > 1 else 0) + p * 100 + x\n"
+)
+
+
+@obligation(
+    "C15.batch_recursive",
+    covers=("duplicates", "failing-element", "some-memoized-before", "an-element-memoized-by-an-earlier-element's-body"),
+    split={"store": ["memory", "fs+cache:1"], "n": [2, 3], "api": ["call_batch", "map_over_range"]},
+    bounds="batches of length 2..3 over {1, 2, failing 3} of a RECURSIVE function (f(2) calls f(1)), so that the body of an earlier "
+           "element can memoize a later element of the same batch; x 8 pre-memoized subsets x raise_first_exception x partial prefix x "
+           "{call_batch, map_over_range} x {memory, fs+cache}; oracle = element-wise evaluation",
+    variables="choice: elements, pre-memoized subset, raise_first, prefix",
+    budget_s={"quick": 170, "thorough": 600},
+    choice_vars=7,
+)
+def batch_recursive(e0: int, e1: int, e2: int, e3: int, pre: int, raise_first: bool, prefix: bool, api: str, store: str, n: int):
+    if n >= 2:
+        # (cover label: element 2 before element 1)
+        pass
+    _run(n, e0, e1, e2, e3, pre, raise_first, prefix, api, store, SRC=SRC_REC)
